@@ -182,7 +182,10 @@ impl<Wr: Write> Serializer for XmlSerializer<Wr> {
     fn end_elem(&mut self, name: QualName) -> io::Result<()> {
         self.namespace_stack.pop();
         self.writer.write_all(b"</")?;
-        self.qual_name(&name)?;
+        // The bindings the name needs were declared on the start tag; looking
+        // them up again here would register them in the parent's scope, where
+        // they are never written out.
+        write_qual_name(&mut self.writer, &name)?;
         self.writer.write_all(b">")
     }
 
